@@ -577,9 +577,15 @@ func (e *enc) evalCall(n *SCall, env *Env) SVal {
 			return SVal{t: fmt.Sprintf("(chancap %s)", v.t), sort: "Int"}
 		}
 		env.fail("cap of sort %s", v.sort)
-	case "int", "int64", "int32", "uint", "uint64", "uint32", "uint8", "byte", "uint16", "int16", "int8":
+	case "int", "int64", "int32", "uint", "uint64", "int16", "int8":
+		// spec integers are mathematical: these conversions are the identity
 		v := arg(0)
 		return SVal{t: v.t, sort: "Int"}
+	case "uint32", "uint16", "uint8", "byte":
+		// narrowing unsigned conversions keep Go's wrap-around so that specs can mirror the code
+		v := arg(0)
+		m := map[string]string{"uint32": "4294967296", "uint16": "65536", "uint8": "256", "byte": "256"}[n.fun]
+		return SVal{t: fmt.Sprintf("(mod %s %s)", v.t, m), sort: "Int"}
 	case "min":
 		return SVal{t: fmt.Sprintf("(imin %s %s)", arg(0).t, arg(1).t), sort: "Int"}
 	case "max":
